@@ -12,6 +12,13 @@ class OpTimeout(BaseException):
 class StateDependent(Exception):
     pass
 
+class _Id(int):
+    """an int subclass (what enum.IntEnum members, numpy-free id wrappers and bool are): a legal cell id for every function taking ints"""
+    pass
+
+def _same_objects(a, b):
+    return len(a) == len(b) and all(x is y for x, y in zip(a, b))
+
 def _on_alarm(signum, frame):
     raise OpTimeout()
 
@@ -232,15 +239,34 @@ class PyDriver:
             arg = [int(x) for x in t[1:]]
             keep = list(arg)
             out = self.twice('compact', lambda: cp.compact(arg))
-            if arg != keep:
+            if arg != keep or not _same_objects(arg, keep):
                 return 'err ArgumentMutated'
+            # the same ids as int-subclass objects: same answer, and the caller's list must still hold the caller's own objects
+            arg2 = [_Id(x) for x in arg]; keep2 = list(arg2)
+            try:
+                out2 = list(cp.compact(arg2))
+            except Exception as e:  # noqa
+                out2 = 'raises ' + type(e).__name__
+            if not _same_objects(arg2, keep2):
+                return 'err StateDependent compact replaced elements of the list passed to it (ids given as int-subclass objects)'
+            if out2 != list(out):
+                return 'err StateDependent compact answers differently for ids given as int-subclass objects'
             return fmt_list(out)
         if op == 'uncompact':
             arg = [int(x) for x in t[2:]]
             keep = list(arg)
             out = self.twice('uncompact', lambda: cp.uncompact(arg, int(t[1])))
-            if arg != keep:
+            if arg != keep or not _same_objects(arg, keep):
                 return 'err ArgumentMutated'
+            arg2 = [_Id(x) for x in arg]; keep2 = list(arg2)
+            try:
+                out2 = list(cp.uncompact(arg2, int(t[1])))
+            except Exception as e:  # noqa
+                out2 = 'raises ' + type(e).__name__
+            if not _same_objects(arg2, keep2):
+                return 'err StateDependent uncompact replaced elements of the list passed to it (ids given as int-subclass objects)'
+            if out2 != list(out):
+                return 'err StateDependent uncompact answers differently for ids given as int-subclass objects'
             return fmt_list(out)
         if op == 'key':
             return 'ok %d' % cp._hierarchical_key(int(t[1]))
